@@ -385,6 +385,12 @@ of_status_t	of_rs_finish_decoding (of_rs_cb_t*	ofcb)
 	 * Let's decode now.
 	 * Create a context first, decode, then release this context.
 	 */
+	if (ofcb->rs_cb != NULL)
+	{
+		/* an encoder-and-decoder instance may already own a codec context (created while encoding) */
+		of_rs_free (ofcb->rs_cb);
+		ofcb->rs_cb = NULL;
+	}
 	ofcb->rs_cb = of_rs_new (ofcb->nb_source_symbols, ofcb->nb_encoding_symbols);
 	if (of_rs_decode (ofcb->rs_cb, (void**)tmp_buf, (int*)tmp_esi, ofcb->encoding_symbol_length) != OF_STATUS_OK)
 	{
